@@ -83,6 +83,11 @@ def run(F, R, tier):
     r02_5_9(cx, R, S)
     r02_6(cx, R, S)
     r02_7(cx, R, S)
+    r02_7_build(cx, R, S)
+    r02_labels_prims(cx, R, S)
+    r02_attr_sources(cx, R, S)
+    R.floor("R02.1", 150 + 15)
+    R.floor("R02.7", 17 + 17 + 17 + 8 + 60)
     return ("A2 wire layouts extracted from the typed HIR of class_reader* and simple_class_writer* and compared structurally (headers, "
             "attributes per location, annotations, element values, type annotations, module, pool entries, per-opcode operands); fixed and "
             "measured attribute lengths; attribute_count discipline; A9 field/attribute coverage incl. write-only sinks; A5 encoder tables by "
@@ -154,7 +159,7 @@ def emissions(items, inrep=False, conds=()):
         elif k == "attrhdr":
             body = []
             j = i + 1
-            while j < len(items) and items[j].get("i") not in ("attr", "attrhdr", "if", "rep") and not _manual_at(items, j):
+            while j < len(items) and items[j].get("i") not in ("attr", "attrhdr", "if", "rep", "match") and not _manual_at(items, j):
                 body.append(items[j])
                 j += 1
             out.append({"kind": "fixed", "name": it["name"], "n": it["n"], "body": body, "node": it["node"], "inrep": inrep, "item": it})
@@ -168,6 +173,9 @@ def emissions(items, inrep=False, conds=()):
         elif k == "if":
             out.extend(emissions(it["then"], inrep, conds + (it,)))
             out.extend(emissions(it["else"], inrep, conds + (it,)))
+        elif k == "match":
+            for (_a, x) in it["arms"]:
+                out.extend(emissions(x, inrep, conds + (it,)))
         elif k == "rep":
             out.extend(emissions(it["body"], True, conds))
         else:
@@ -322,7 +330,11 @@ def r02_1(cx, R, S):
         # reader: everything before the attribute loop; writer: everything before (attribute count, attribute bytes)
         rcut = next((i for i, it in enumerate(ri) if it.get("i") == "rep" and it["body"] and it["body"][-1].get("i") == "dispatch"), None)
         if R.anchor("R02.1", "attribute loop of %s" % rn, rcut is not None, sp=rb["sp"]) and R.anchor("R02.1", "attribute tail of %s" % wn, len(wi) >= 2, sp=wb["sp"]):
-            _cmp(cx, R, "header:%s" % loc, ri[:rcut], wi[:-2], sp=wb["sp"], queue=queue)
+            rh, wh = ri[:rcut], wi[:-2]
+            if loc == "code" and rh and wh and rh[-1].get("i") == "rep" and wh[-1].get("i") == "rep":
+                _cmp(cx, R, "layout:exception_table", rh[-1:], wh[-1:], sp=wh[-1]["node"].get("sp"), queue=queue)
+                rh, wh = rh[:-1], wh[:-1]
+            _cmp(cx, R, "header:%s" % loc, rh, wh, sp=wb["sp"], queue=queue)
     # code_length is the measured length of the code bytes that follow
     wc = cx.wfn("write_code")
     if wc:
@@ -1201,7 +1213,7 @@ def r02_5_9(cx, R, S):
             base = by_mn[fam]["value"]
             for idx in (0, 1, 2, 3, 4, 255, 256, 65535):
                 res, ev = _run_instr(m, T.V(vname, _lv(idx)))
-                got = check_path("%s:index=%d" % (key, idx), vname, ev.writes, sp, implied=idx if idx < 4 else None)
+                got = check_path("%s:index=%d" % (key, idx), vname, ev.writes, sp, implied=idx)
                 if got is None:
                     continue
                 wide, op = got
@@ -1954,3 +1966,394 @@ def r02_7(cx, R, S):
                     ok = len(pushes) == 1 and order2.index(id(n)) < order2.index(id(pushes[0]))
         R.inst("R02.7", "bootstrap:index=checked-position", ok, sp=pbm["sp"], expect="index = vec.len() converted with a checked try_into before the push")
     R.floor("R02.7", 17 + 17 + 17 + 8)
+
+
+# ===================================================================================================== pool entry construction (part of R02.7)
+import json as _json
+import os as _os
+
+_POOLSPEC = _os.path.join(_os.path.dirname(_os.path.dirname(_os.path.abspath(__file__))), "spec", "c02_pool_entries.json")
+_PUT_TERM = {"put_utf8": "utf8", "put_class": "class", "put_name_and_type": "nat", "put_field_ref": "fieldref", "put_method_ref": "methodref",
+             "put_interface_method_ref": "imethodref", "put_method_ref_or_interface_method_ref": "methodref|imethodref",
+             "put_bootstrap_method": "bsm", "put_loadable": "loadable", "put_package": "package", "put_module": "module"}
+
+
+class EvalPool(T.Evaluator):
+    """Evaluates PoolEntry::from_x / PoolWrite::put_x with the pool operations as uninterpreted terms."""
+
+    def call(self, n, c, args, env):
+        name = H.callee_name(n)
+        owner = c.get("impl_ty") or c.get("path") or ""
+        if name in ("as_inner", "as_ref", "as_class_name", "as_java_str", "as_str", "as_slice"):
+            return args[0]
+        if name == "to_bits":
+            return T.V("bits", args[0])
+        if "PoolWrite" in owner and name in _PUT_TERM:
+            return T.V("Ok", T.V(_PUT_TERM[name], *args[1:]))
+        if "PoolWrite" in owner and name == "put":
+            return T.V("put", *args[1:])
+        if "PoolWrite" in owner and name and name.startswith("put_"):
+            return T.V(name, *args[1:])
+        if "PoolEntry" in owner and name and name.startswith("from_"):
+            return T.V("Ok", T.V(name, *[a for a in args if a != T.sym("pool") and a != T.sym("self")]))
+        if name == "from" and (c.get("path") or "").startswith("core::convert::From"):
+            return T.V("from", args[0])
+        return super().call(n, c, args, env)
+
+
+def _pshow(v):
+    if v[0] == "v" and v[1] == "Ok" and len(v[2]) == 1:
+        return _pshow(v[2][0])
+    if v[0] == "st":
+        return "%s{%s}" % (v[1], ", ".join("%s: %s" % (a, _pshow(b)) for a, b in sorted(v[2].items())))
+    if v[0] == "v":
+        return v[1] + ("(%s)" % ", ".join(_pshow(x) for x in v[2]) if v[2] else "")
+    if v[0] == "t":
+        return "(%s)" % ", ".join(_pshow(x) for x in v[1])
+    if v[0] == "b":
+        return "true" if v[1] else "false"
+    return T.show(v)
+
+
+def r02_7_build(cx, R, S):
+    duke = cx.duke
+    with open(_POOLSPEC) as f:
+        P = _json.load(f)
+    PE = "simple_class_writer::pool::PoolEntry"
+    PW = "simple_class_writer::pool::PoolWrite"
+    pool = T.sym("pool")
+    for fn, cases in P["from"].items():
+        fb = duke.fn(fn, impl_ty=PE)
+        if not R.anchor("R02.7", "fn PoolEntry::" + fn, fb):
+            continue
+        takes_pool = "PoolWrite" in (fb["inputs"][0] if fb["inputs"] else "")
+        for argspec, want in cases.items():
+            if argspec == "v":
+                vals = [T.sym("v")]
+            elif argspec == "a,b":
+                vals = [T.sym("a"), T.sym("b")]
+            else:
+                vals = [("t", [T.sym("v"), ("b", argspec.endswith("true)"))])]
+            res = EvalPool().run_fn(fb, ([pool] if takes_pool else []) + vals)
+            got = _pshow(res)
+            key = "build:%s%s" % (fn, "" if argspec in ("v", "a,b") else ":" + argspec)
+            R.inst("R02.7", key, got == want, sp=fb["sp"], expect=want, got=got)
+    # method handles: kind and referenced entry per Handle variant
+    fb = duke.fn("from_method_handle", impl_ty=PE)
+    if R.anchor("R02.7", "fn PoolEntry::from_method_handle", fb):
+        hv = T.enum_variants(duke, "duke::tree::method::code::Handle") or []
+        R.inst("R02.7", "handle:variant-set", sorted(v for v, _n in hv) == sorted(P["handle_variant"].values()), sp=fb["sp"],
+               expect=sorted(P["handle_variant"].values()), got=sorted(v for v, _n in hv))
+        for jname, kind in S["method_handle_kinds"].items():
+            var = P["handle_variant"][jname]
+            nf = dict(hv).get(var, 1)
+            payload = [T.sym("x")] + ([T.sym("itf")] if nf == 2 else [])
+            res = EvalPool().run_fn(fb, [pool, T.V(var, *payload)])
+            term = P["target_term"][S["method_handle_target"][str(kind)]]
+            arg = "x" if nf == 1 else "(x, itf)"
+            want = "MethodHandle{reference_index: %s(%s), reference_kind: %d}" % (term, arg, kind)
+            R.inst("R02.7", "handle:%s" % var, _pshow(res) == want, sp=fb["sp"], expect=want, got=_pshow(res))
+    for fn, table, adt in (("from_loadable", P["loadable"], "duke::tree::method::code::Loadable"),
+                           ("from_constant_value", P["constant_value"], "duke::tree::field::ConstantValue")):
+        fb = duke.fn(fn, impl_ty=PE)
+        vs = T.enum_variants(duke, adt) or []
+        if not R.anchor("R02.7", "fn PoolEntry::" + fn, fb):
+            continue
+        R.inst("R02.7", "%s:variant-set" % fn, sorted(v for v, _n in vs) == sorted(table), sp=fb["sp"], expect=sorted(table), got=sorted(v for v, _n in vs))
+        for var, target in table.items():
+            res = EvalPool().run_fn(fb, [pool, T.V(var, T.sym("x"))])
+            want = "%s(x)" % target
+            R.inst("R02.7", "%s:%s" % (fn, var), _pshow(res) == want, sp=fb["sp"], expect=want, got=_pshow(res))
+    for fn, target in P["put"].items():
+        fb = duke.fn(fn, impl_ty=PW)
+        if not R.anchor("R02.7", "fn PoolWrite::" + fn, fb):
+            continue
+        nargs = len(fb["params"]) - 1
+        vals = [T.sym("v")] if nargs == 1 else [T.sym("a"), T.sym("b")]
+        res = EvalPool().run_fn(fb, [T.sym("self")] + vals)
+        want = "put(%s(%s))" % (target, ", ".join(x[1] for x in vals))
+        R.inst("R02.7", "put:%s" % fn, _pshow(res) == want, sp=fb["sp"], expect=want, got=_pshow(res))
+    for fn in P["put_as_integer"]:
+        fb = duke.fn(fn, impl_ty=PW)
+        if not R.anchor("R02.7", "fn PoolWrite::" + fn, fb):
+            continue
+        res = EvalPool().run_fn(fb, [T.sym("self"), T.sym("v")])
+        got = _pshow(res)
+        R.inst("R02.7", "put:%s" % fn, got in ("put_integer(v)", "put(from_integer(v))", "put(from_integer(from(v)))", "put_integer(from(v))"), sp=fb["sp"],
+               expect="an Integer entry holding the value widened to i32", got=got)
+    po = duke.fn("put_optional", impl_ty=PW)
+    if R.anchor("R02.7", "fn PoolWrite::put_optional", po):
+        res = T.Evaluator().run_fn(po, [T.sym("self"), T.V("None"), T.sym("f")])
+        R.inst("R02.7", "put_optional:none=0", res == T.V("Ok", ("i", 0)), sp=po["sp"], expect="Ok(0)", got=T.show(res))
+        ev = T.Evaluator()
+        res = ev.run_fn(po, [T.sym("self"), T.V("Some", T.sym("x")), T.sym("f")])
+        fcalls = [n for k, n in ev.effects if k == "callnode" and (n.get("callee") or {}).get("r") == "local"]
+        ok = len(fcalls) == 1 and len(fcalls[0]["args"]) == 2 and H.local_of(fcalls[0]["args"][1]) is not None
+        R.inst("R02.7", "put_optional:some=f(value)", ok and res[0] == "sym", sp=po["sp"], expect="f(self, value)", got=T.show(res))
+
+
+# ===================================================================================================== labels and primitives (part of R02.1/R02.5)
+class EvalLabels(T.Evaluator):
+    def call(self, n, c, args, env):
+        name = H.callee_name(n)
+        if name == "try_get" and "Labels" in (c.get("impl_ty") or ""):
+            return T.V("Ok", T.V("pos", args[1]))
+        return super().call(n, c, args, env)
+
+
+def r02_labels_prims(cx, R, S):
+    duke = cx.duke
+    LB = "simple_class_writer::labels::Labels"
+    tgr = duke.fn("try_get_range", impl_ty=LB)
+    if R.anchor("R02.1", "fn Labels::try_get_range (writer)", tgr):
+        res = EvalLabels().run_fn(tgr, [T.sym("self"), T.sym("range")])
+        got = T.show(res)
+        R.inst("R02.1", "labels:try_get_range=(start, end-start)", got == "Ok((pos(range.start), (pos(range.end) - pos(range.start))))", sp=tgr["sp"],
+               expect="(offset of range.start, offset of range.end - offset of range.start)  [the reader builds the range from (start_pc, length)]", got=got)
+    # label registration in write_code
+    wc = cx.wfn("write_code")
+    if wc:
+        ex, lays = cx.lay(wc, "w")
+        m = _instr_match(wc)
+        order = {id(n): i for i, n in enumerate(H.walk(wc["body"]))}
+        code_buf = None
+        for b, items in lays.items():
+            if any(it.get("i") == "loop" for it in items):
+                code_buf = b
+        regs = [n for n in H.walk(wc["body"]) if n.get("k") == "mcall" and n["name"] == "add_opcode_pos_label"]
+        inloop = []
+        after = []
+        loop_for = next((n for n in H.walk(wc["body"]) if n.get("k") == "for" and any(x is m for x in H.walk(n["body"]))), None)
+        fix = next((n for n in H.walk(wc["body"]) if n.get("k") == "for" and "UnwrittenLabel" in (n.get("iter_ty") or "")), None)
+        for r_ in regs:
+            if loop_for is not None and any(x is r_ for x in H.walk(loop_for["body"])):
+                inloop.append(r_)
+            else:
+                after.append(r_)
+        ok1 = False
+        if len(inloop) == 1 and m is not None:
+            r_ = inloop[0]
+            f, rest = U._place_field(r_["args"][0])
+            lf = f or U._local_field(ex, rest, 0)
+            pos_root = _len_root_try(ex, r_["args"][1])
+            ok1 = lf == "label" and pos_root == code_buf and order[id(r_)] < order[id(m)]
+        R.inst("R02.5", "label:instruction-label=position-before-the-instruction", ok1, sp=inloop[0]["sp"] if inloop else wc["sp"],
+               expect="labels.add_opcode_pos_label(instruction.label, opcode_pos) before the instruction is emitted",
+               detail="a label must designate the first byte of its instruction")
+        ok2 = False
+        if len(after) == 1 and loop_for is not None and fix is not None:
+            r_ = after[0]
+            f, rest = U._place_field(r_["args"][0])
+            lf = f or U._local_field(ex, rest, 0)
+            ok2 = lf == "last_label" and _len_root(ex, r_["args"][1]) == code_buf and order[id(loop_for)] < order[id(r_)] < order[id(fix)]
+        R.inst("R02.5", "label:last_label=code-length", ok2, sp=after[0]["sp"] if after else wc["sp"],
+               expect="after all instructions and before the fix-ups: add_opcode_pos_label(code.last_label, w.len())")
+    # ClassWrite primitives
+    for t, width in U.WIDTH.items():
+        fb = duke.body("duke::ClassWrite::write_" + t)
+        if not R.anchor("R02.1", "fn ClassWrite::write_" + t, fb):
+            continue
+        pid = H.pat_bindings(fb["params"][1])[0][0]
+        calls = [n for n in H.walk(fb["body"]) if n.get("k") == "mcall" and n["name"] == "write_u8_slice"]
+        ok = False
+        got = None
+        if len(calls) == 1:
+            a = H.peel(calls[0]["args"][0])
+            got = H.render(a)
+            if a.get("k") == "mcall" and a["name"] == "to_be_bytes" and H.local_of(a["recv"]) and H.local_of(a["recv"])[0] == pid:
+                ok = fb["inputs"][1] == t
+            elif t == "u8" and a.get("k") == "array" and len(a["es"]) == 1 and H.local_of(a["es"][0]) and H.local_of(a["es"][0])[0] == pid:
+                ok = fb["inputs"][1] == t
+        R.inst("R02.1", "prim:write_%s=big-endian" % t, ok, sp=fb["sp"], expect="write_u8_slice(&value.to_be_bytes()) of a %s" % t, got=got)
+    for t in ("u8", "u16", "u32"):
+        fb = duke.body("duke::ClassWrite::write_usize_as_" + t)
+        if not R.anchor("R02.1", "fn ClassWrite::write_usize_as_" + t, fb):
+            continue
+        pid = H.pat_bindings(fb["params"][1])[0][0]
+        ok = False
+        outer = [n for n in H.walk(fb["body"]) if n.get("k") == "mcall" and n["name"] == "write_" + t]
+        if len(outer) == 1:
+            a = outer[0]["args"][0]
+            conv = [n for n in H.walk(a) if n.get("k") == "call" and H.callee_name(n) == "try_from" and (n.get("callee") or {}).get("self_ty") == t]
+            tries = [n for n in H.walk(a) if n.get("k") == "try"]
+            casts = [n for n in H.walk(fb["body"]) if n.get("k") == "cast"]
+            ok = len(conv) == 1 and H.local_of(conv[0]["args"][0]) and H.local_of(conv[0]["args"][0])[0] == pid and bool(tries) and not casts
+        R.inst("R02.1", "prim:write_usize_as_%s=checked" % t, ok, sp=fb["sp"], expect="self.write_%s(%s::try_from(value)<error>?)" % (t, t),
+               detail="a count that does not fit its field must be an error, never a truncated value")
+    ws = duke.body("duke::ClassWrite::write_slice")
+    if R.anchor("R02.1", "fn ClassWrite::write_slice", ws):
+        ids = [H.pat_bindings(p)[0][0] if H.pat_bindings(p) else None for p in ws["params"]]
+        seq = []
+        for n in H.walk(ws["body"]):
+            if n.get("k") == "call" and (n.get("callee") or {}).get("r") == "local":
+                seq.append((n["callee"]["id"], n))
+        ok = False
+        if len(seq) == 2 and seq[0][0] == ids[2] and seq[1][0] == ids[3]:
+            a = H.peel(seq[0][1]["args"][1])
+            lenok = a.get("k") == "mcall" and a["name"] == "len" and H.local_of(a["recv"]) and H.local_of(a["recv"])[0] == ids[1]
+            fors = [n for n in H.walk(ws["body"]) if n.get("k") == "for"]
+            forok = len(fors) == 1 and H.local_of(fors[0]["iter"]) and H.local_of(fors[0]["iter"])[0] == ids[1] and any(x is seq[1][1] for x in H.walk(fors[0]["body"]))
+            ok = bool(lenok and forok)
+        R.inst("R02.1", "prim:write_slice=len-then-elements", ok, sp=ws["sp"], expect="put_size(self, slice.len())?; for v in slice { put_element(self, v)? }")
+    imp = next((b for b in duke.bodies if b.get("name") == "write_u8_slice" and "ClassWrite" in (b.get("impl_trait") or "")), None)
+    if R.anchor("R02.1", "impl ClassWrite for T: write_u8_slice", imp):
+        calls = [n for n in H.walk(imp["body"]) if n.get("k") == "mcall" and n["name"] in ("write_all", "write")]
+        R.inst("R02.1", "prim:write_u8_slice=write_all", len(calls) == 1 and calls[0]["name"] == "write_all", sp=imp["sp"], expect="self.write_all(buf)",
+               detail="`write` may write only a prefix", got=[c_["name"] for c_ in calls])
+
+
+# ===================================================================================================== attribute <-> tree field (part of R02.1)
+class EvalMut(T.Evaluator):
+    """Evaluates a tree-builder visitor method and records which fields of the node it stores into."""
+
+    def __init__(self, **kw):
+        super().__init__(**kw)
+        self.fields = set()
+
+    def ev(self, n, env):
+        if n.get("k") == "assign":
+            root, path = H.place_root(n["l"])
+            if path:
+                self.fields.add(path[0])
+        return super().ev(n, env)
+
+    def call(self, n, c, args, env):
+        if n.get("k") == "mcall" and n["name"] in ("extend", "push", "insert_if_empty", "insert", "replace", "get_or_insert_with", "append"):
+            root, path = H.place_root(n["recv"])
+            if path:
+                self.fields.add(path[0])
+        return super().call(n, c, args, env)
+
+
+def _tree_impls(duke, callee, name):
+    tr = callee.get("trait") or ""
+    out = []
+    if tr.startswith("duke::visitor::"):
+        for x in duke.bodies:
+            if x.get("name") == name and tr in (x.get("impl_trait") or "") and (x.get("impl_ty") or "").startswith("duke::tree::"):
+                out.append(x)
+    return out
+
+
+def _stored_fields(duke, call, bool_of_arm):
+    """Fields of the tree node that the tree builder's implementation of this visitor call stores into."""
+    c = call.get("callee") or {}
+    name = H.callee_name(call)
+    out = set()
+    for fb in _tree_impls(duke, c, name):
+        args = []
+        for p in fb["params"]:
+            p0 = H.pat_peel(p) if p.get("k") != "bind" else p
+            if p0.get("k") == "ptuple" and len(p0["pats"]) == 2 and bool_of_arm is not None:
+                args.append(("t", [T.sym("this"), ("b", bool_of_arm)]))
+            else:
+                b = H.pat_bindings(p)
+                args.append(T.sym(b[0][1] if b else "_"))
+        ev = EvalMut()
+        ev.run_fn(fb, args)
+        out |= ev.fields
+    return out
+
+
+def reader_attr_fields(cx, rb, table):
+    """{attribute name: set of tree fields the reader's handling of that attribute ends up in} (through the tree builder)."""
+    duke = cx.duke
+    res = {}
+    # visitor calls outside the dispatch that consume locals filled in the arms
+    all_calls = [n for n in H.walk(rb["body"]) if n.get("k") in ("call", "mcall") and ((n.get("callee") or {}).get("trait") or "").startswith("duke::visitor::")]
+    for name, rec in table.items():
+        body = rec["arm"]["body"]
+        fields = set()
+        lit = None
+        for n in H.walk(body):
+            if n.get("k") in ("call", "mcall") and (H.callee_name(n) or "").startswith("visit_"):
+                for a in n["args"]:
+                    v = H.const_value(a)
+                    if isinstance(v, bool):
+                        lit = v
+        for n in H.walk(body):
+            if n.get("k") in ("call", "mcall") and ((n.get("callee") or {}).get("trait") or "").startswith("duke::visitor::"):
+                fields |= _stored_fields(duke, n, lit)
+            elif n.get("k") == "call" and H.callee_name(n) in ("read_record_component", "read_code"):
+                fb = cx.duke.by_key.get((n.get("callee") or {}).get("key"))
+                if fb is not None:
+                    for x in H.walk(fb["body"]):
+                        if x.get("k") in ("call", "mcall") and (H.callee_name(x) or "").startswith("finish_") and \
+                                ((x.get("callee") or {}).get("trait") or "").startswith("duke::visitor::"):
+                            fields |= _stored_fields(duke, x, None)
+        # locals assigned / filled in the arm and delivered later
+        locs = set()
+        for n in H.walk(body):
+            if n.get("k") == "assign" and H.local_of(n["l"]):
+                locs.add(H.local_of(n["l"])[0])
+            if n.get("k") == "mcall" and n["name"] in ("get_or_insert_with", "insert_if_empty", "push") and H.local_of(n["recv"]):
+                locs.add(H.local_of(n["recv"])[0])
+        for lid in locs:
+            for cnode in all_calls:
+                if any(x is cnode for x in H.walk(body)):
+                    continue
+                allargs = ([cnode["recv"]] if cnode.get("k") == "mcall" else []) + cnode["args"]
+                for i, a in enumerate(allargs):
+                    l = H.local_of(a)
+                    if not l:
+                        continue
+                    src = H.origin_local(rb["body"], l[0])
+                    if src != lid:
+                        # `if let Some(table) = local { visit(table) }`
+                        path, init = U._pattern_source(_Ex(rb), l[0])
+                        r = H.recv_root(init) if init is not None else None
+                        if not (r and r[0] == lid):
+                            continue
+                    f = U.flow_field(duke, cnode.get("callee") or {}, i, H.callee_name(cnode))
+                    if f:
+                        fields.add(f)
+        res[name] = fields
+    return res
+
+
+def _in_format_macro(ex, n):
+    for q in ex.parents.get(id(n), ()):
+        m = q.get("mac") or []
+        if any(x in ("anyhow", "bail", "format", "format_args", "write", "panic") for x in m):
+            return True
+        if q.get("k") == "mcall" and q["name"] in ("with_context", "context") and any(x is n for a in q["args"] for x in H.walk(a)):
+            return True
+    return False
+
+
+def r02_attr_sources(cx, R, S):
+    loc_adt = {"class": "duke::tree::class::ClassFile", "field": "duke::tree::field::Field", "method": "duke::tree::method::Method",
+               "code": "duke::tree::method::code::Code", "record_component": "duke::tree::record::RecordComponent"}
+    n = 0
+    for loc, wn, rn in LOCS:
+        rb, wb = cx.rfn(rn), cx.wfn(wn)
+        if not (rb and wb):
+            continue
+        ex, lays = cx.lay(wb, "w")
+        ab, aitems = attr_buffer(ex, lays)
+        table, hdr, _rep = reader_dispatch(cx, rb)
+        if aitems is None or table is None:
+            continue
+        rfields = reader_attr_fields(cx, rb, table)
+        body = H.peel(wb["body"])
+        top = body["stmts"] + ([body["tail"]] if "tail" in body else [])
+        for em in emissions(aitems):
+            if em["kind"] == "stray":
+                continue
+            name = em["name"] if isinstance(em["name"], str) else None
+            if name == "BootstrapMethods":
+                continue       # assembled from the pool, not from a tree field
+            stmt = next((s_ for s_ in top if any(x is em["node"] for x in H.walk(s_))), None)
+            if stmt is None:
+                continue
+            wf = set()
+            for x in H.walk(stmt):
+                if x.get("k") == "field" and x.get("adt") == loc_adt[loc] and not _in_format_macro(ex, x):
+                    wf.add(x["name"])
+            rf = rfields.get(name, set())
+            n += 1
+            nm = name or "unknown"
+            # locals computed before the block (counts of the local-variable tables) may add the same field again: compare as sets
+            R.inst("R02.1", "attr-source:%s:%s" % (loc, nm), bool(rf) and wf == rf, sp=em["node"].get("sp"), expect=sorted(rf), got=sorted(wf),
+                   detail="tree field(s) the reader's `%s` handling fills (through the tree builder) vs tree field(s) the writer's `%s` block reads" % (nm, nm))
+    R.inst("R02.1", "attr-source:blocks", n >= 45, got=n, nontrivial=False)
